@@ -30,6 +30,10 @@ EXPLANATION = (
     "application reachable from the other calls SVG.parse makes on a new element (render, is_degenerate and what they reach"
     " through self), must be dominated by a not-a-Length test or sit in a try that takes ValueError. Not decided: equality "
     "of sibling geometry with and without the faulty element (values); exceptions from interpreter internals."
+    ' Two more source kinds: Point(<path>._segments[i].start|end) without a dominating None test (TypeError),'
+    ' and calls on a local bound once to a constructor result are resolved to that class (tokens ='
+    ' SVGLexicalParser(); tokens.parse(...)), with `isinstance(parameter, str)` decided false in the callee'
+    ' when the call site passes such an instance.'
 )
 TECHNIQUE = (
     "static analysis (no execution): exception-escape analysis from every element construction site (may-raise sets propagated over the call graph, subtracted at handlers); recursion guard check; push/pop path counting; result-is-root"
